@@ -487,7 +487,63 @@ def run_greenback_asyncio(k, leaf, vantage, throw_at):
     return problems, 1
 
 
+def c_entry(entry, njobs, depth, repeat):
+    """A greenlet whose run callable is a C callable (list, sorted, max, map via list) that calls SEVERAL Python functions
+    in turn: its outermost Python frame changes from one suspension to the next. It is extracted `repeat` times at every
+    suspension; each time the frames are those from the current call's entry to the switch point."""
+    import greenlet
+    import stackscope
+    problems = []
+    n = [0]
+    main = greenlet.getcurrent()
+
+    def handle(job, d=depth):
+        if d > 1:
+            return handle(job, d - 1)
+        main.switch(job)
+        return job
+    jobs = list(range(njobs))
+    if entry == "list-map":
+        g = greenlet.greenlet(list)
+        arg = (map(handle, jobs),)
+    elif entry == "sorted-key":
+        g = greenlet.greenlet(sorted)
+        arg = (jobs,)
+    else:
+        g = greenlet.greenlet(max)
+        arg = (jobs,)
+    kwargs = {"key": handle} if entry in ("sorted-key", "max-key") else {}
+    seen = 0
+    g.switch(*arg, **kwargs)
+    while not g.dead:
+        seen += 1
+        for r in range(repeat):
+            with warnings.catch_warnings(record=True) as w:
+                warnings.simplefilter("always")
+                st = stackscope.extract(g, with_contexts=False)
+            n[0] += 1
+            got = [f.pyframe for f in st.frames]
+            exp = walk(g.gr_frame)
+            if got != exp or st.error is not None or w or len(exp) != depth:
+                problems.append("c-entry %s suspension %d look %d: frames %r expected %r error=%r" % (
+                    entry, seen, r, [(f.f_code.co_name, f.f_locals.get("job")) for f in got],
+                    [(f.f_code.co_name, f.f_locals.get("job")) for f in exp], st.error))
+        g.switch()
+    st = stackscope.extract(g, with_contexts=False)
+    n[0] += 1
+    if st.frames or st.error is not None:
+        problems.append("c-entry %s: finished greenlet has frames %r error %r" % (entry, st.frames, st.error))
+    if seen != njobs:
+        problems.append("harness: %d suspensions for %d jobs" % (seen, njobs))
+    return problems, n[0]
+
+
 def greenlet_cases(maxd, maxchain=3):
+    for entry in ("list-map", "sorted-key", "max-key"):
+        for njobs in (1, 2, 3):
+            for depth in range(1, maxd + 1):
+                for repeat in (1, 2):
+                    yield {"leg": "c_entry", "entry": entry, "njobs": njobs, "depth": depth, "repeat": repeat}
     for n in range(1, maxchain + 1):
         for depths in itertools.product(range(1, maxd + 1), repeat=n):
             yield {"leg": "chain", "depths": list(depths)}
@@ -515,6 +571,8 @@ def greenback_cases(maxk):
 
 
 def do_case(case):
+    if case["leg"] == "c_entry":
+        return c_entry(case["entry"], case["njobs"], case["depth"], case["repeat"])
     if case["leg"] == "chain":
         return run_chain(case["depths"])
     if case["leg"] == "frameless_parent":
